@@ -347,6 +347,32 @@ def forall_sources():
                     yield "%s:%s:%d" % (sname, o or "auto", ln), prog, f(seq) + "done\n"
 
 
+# writes through the iterator land in the table - also when the element is null and the write has to create the value
+ITER_WRITES = [
+    ("null-row-concat", "wtt = tab(2, tab(1, 1)); wtt.put(0, null); forall wr in wtt loop wr.concat(5); end loop; print isnull(wtt.at(0)) wtt.at(0).count() wtt.at(0).at(0) wtt.at(1).count() wtt.at(1).at(1);", "FALSE15 2 5\n".replace(" ", "")),
+    ("null-row-concat-table", "wtt = tab(2, tab(1, 1)); wtt.put(1, null); forall wr in wtt desc loop wr.concat(tab(2, 9)); end loop; print wtt.at(0).count() wtt.at(1).count() wtt.at(1).at(1);", "329\n"),
+    ("null-string-concat", 'wts = tab(2, "a"); wts.put(0, null); forall we in wts loop we.concat("x"); end loop; print wts.at(0) wts.at(1);', "xax\n"),
+    ("null-bytes-concat", 'wtb = tab(2, raw("a")); wtb.put(1, null); forall we in wtb loop we.concat(66); end loop; print wtb.at(0).count() wtb.at(1).count() wtb.at(1).at(0);', "2166\n"),
+    ("null-int-let", "wtn = tab(2, 1); wtn.put(1, null); forall we in wtn loop we = 7; end loop; print wtn.at(0) wtn.at(1);", "77\n"),
+    ("null-row-put", "wtt = tab(2, tab(1, 1)); forall wr in wtt loop wr.put(0, 4); wr.insert(0, 3); end loop; print wtt.at(0).at(0) wtt.at(0).at(1) wtt.at(1).count();", "342\n"),
+    ("null-row-nested", "wt3 = tab(1, tab(2, tab(1, 1))); wt3.at(0).put(0, null); forall wq in wt3 loop forall wr in wq loop wr.concat(8); end loop; end loop; print wt3.at(0).at(0).count() wt3.at(0).at(0).at(0) wt3.at(0).at(1).count();", "182\n"),
+    ("null-row-in-function", "function fw(wtt) return integer is begin forall wr in wtt loop wr.concat(5); end loop; return wtt.at(0).count() * 10 + wtt.at(1).count(); end; "
+     "wta = tab(2, tab(1, 1)); wta.put(0, null); print fw(wta); print isnull(wta.at(0));", "12\nTRUE\n"),
+    ("tuple-item-set", 'wtr = tab(2, tup(1, "a")); forall wr in wtr loop wr.set@1(9); end loop; print wtr.at(0)@1 wtr.at(1)@1;', "99\n"),
+]
+
+
+def iterwrites_gen(tier):
+    def gen():
+        n = 0
+        for tag, prog, want in ITER_WRITES:
+            for route in ("cpp", "capi"):
+                ops = [op_ctx(), op_run(DECL + " vn = bool(); ni = int();"), op_run(prog, route=route), op_out(), op_dump(0, "I1"), op_run(PROBES), op_out(), op_dump(0, "I")]
+                yield Case("iw%d" % n, ops, {"kind": "ifchain", "tag": "iterator-write:" + tag, "where": route, "prog": prog, "want": want})
+                n += 1
+    return gen
+
+
 def sources_gen(tier):
     def gen():
         n = 0
@@ -537,6 +563,7 @@ def run(tier):
     total.merge(explore("%s-%s-ifchains" % (PROP, tier), ifchain_gen(tier), check, chunk=200, deadline=deadline))
     total.merge(explore("%s-%s-stray" % (PROP, tier), stray_gen(tier), check, chunk=20, deadline=deadline))
     total.merge(explore("%s-%s-forall-sources" % (PROP, tier), sources_gen(tier), check, chunk=50, deadline=deadline))
+    total.merge(explore("%s-%s-iterator-writes" % (PROP, tier), iterwrites_gen(tier), check, chunk=20, deadline=deadline))
     from . import c09
     total.merge(explore("%s-%s-lock" % (PROP, tier), c09.forall_gen(tier), check, chunk=50, deadline=deadline))
     total.merge(explore("%s-%s-nesting" % (PROP, tier), nest_gen(tier), check, chunk=200, deadline=deadline))
